@@ -1,7 +1,7 @@
 (* Extract/Cmd_c16.v — observation commands of property C16.
      ops    <kind> <oplist>   the MODEL's answer to every call and its final observation
      opsref <kind> <oplist>   the same line computed by the REFERENCE (Spec/Ordered.v)
-     cls    <kind> <oplist>   the placeholder class of the history (none | finding id)
+     cls    <kind> <oplist>   the known class of the history (always `none` since the repair of C16-placeholder-residue)
    kind: table | inline | inline_tl | map_sorted | map_ordered | array | aot
    oplist: calls joined by `;`, the fields of a call joined by `,` (names as in lib/props/c16.py). *)
 From TV Require Import Base.Prelude Spec.Ordered Model.Containers Extract.Show.
@@ -230,21 +230,8 @@ Definition cmd_ops (side : bool) (kind ops : bytes) : bytes :=
     end
   end.
 
-(* the class of a history and the finding it belongs to *)
-Definition cmd_cls (kind ops : bytes) : bytes :=
-  match parse_mkind kind with
-  | Some kd =>
-    if is_map_kind kd then str "none" else
-    match all_some (map parse_mop (fields ops)) with
-    | None => str "bad-op"
-    | Some h =>
-      match first_sens kd [] h with
-      | None => str "none"
-      | Some _ => str "C16-placeholder-residue"
-      end
-    end
-  | None => str "none"
-  end.
+(* the class of a history: since the repair of C16-placeholder-residue no history is in a known class *)
+Definition cmd_cls (kind ops : bytes) : bytes := str "none".
 
 Definition run_cmd (name : bytes) (args : list bytes) : bytes :=
   match args with
